@@ -1054,6 +1054,14 @@ class PartialReduce(ArrayExpr):
         if isinstance(meta, np.ma.core.MaskedConstant):
             meta = np.ma.array(meta, ndmin=0)
 
+        # keepdims over every axis reduces the empty meta to shape (1, ..., 1):
+        # a meta of rank >= 1 must stay empty or downstream meta inference that
+        # mixes it with empty metas fails.
+        if is_arraylike(meta) and getattr(meta, "ndim", 0) > 0 and getattr(meta, "size", 0):
+            from dask_array._utils import meta_from_array
+
+            meta = meta_from_array(meta, ndim=meta.ndim)
+
         return meta
 
     def _simplify_up(self, parent, dependents):
